@@ -414,6 +414,8 @@ FAMILY_ORDER = {
     "R(RC)(RQ)": {"R0": "R_0", "R1": "R_1", "C1": "C_2", "R2": "R_3", "Y2": "Y_4", "n2": "n_4"},
     "R(C[RW])": {"R0": "R_0", "C1": "C_1", "R1": "R_2", "Y1": "Y_3"},
     "RL(RQ)": {"R0": "R_0", "L0": "L_1", "R1": "R_2", "Y1": "Y_3", "n1": "n_3"},
+    # series resistance + general transmission line model with elements inside its sub-circuits (C12 container workloads)
+    "R-Tlm": {"R0": "R_0", "Rx": "R_2", "Rz": "R_3", "Y": "Y_4", "n": "n_4"},
 }
 
 
